@@ -11,6 +11,7 @@ import (
 	"bytes"
 	"fmt"
 	"math/rand/v2"
+	"simrt"
 	"sort"
 	"strings"
 	"testing"
@@ -31,6 +32,11 @@ type HistOp struct {
 	Str2 string `json:"str2,omitempty"`
 	Jobs int    `json:"jobs,omitempty"`
 	Seed uint64 `json:"seed,omitempty"`
+	// Sub (Op == "par"): Sub[0], a read or read-only operation of session S,
+	// and Sub[1], an edit of the OTHER session, run as two goroutines under
+	// the scheduler: documents are independent, the caches behind them are
+	// shared by the whole process.
+	Sub []HistOp `json:"sub,omitempty"`
 }
 
 type HistoryCfg struct {
@@ -118,6 +124,13 @@ func genHistoryCase(prop, tier string, r *rand.Rand) *Case {
 		default:
 			op.Op = pick(r, ros)
 			op.Jobs = pick(r, []int{1, 2, 3, 8})
+		}
+		if sessions == 2 && r.IntN(5) == 0 {
+			// two users of the library at the same time, each with its own document
+			ro := HistOp{S: op.S, Op: pick(r, []string{"ro.warnings", "ro.warnings", "ro.string", "ro.filter", "ro.deepcopy", "ro.comparenodes", "ro.query", "ro.surrounding", "read.all"}),
+				A: r.IntN(1000), B: r.IntN(1000), C: r.IntN(1000), Str: pick(r, histTags), Jobs: 1, Seed: r.Uint64()}
+			ed := HistOp{S: 1 - op.S, Op: pick(r, edits), A: r.IntN(1000), B: r.IntN(1000), C: r.IntN(1000), Str: pick(r, histTags), Str2: pick(r, histValues)}
+			op = HistOp{S: op.S, Op: "par", Seed: r.Uint64(), Sub: []HistOp{ro, ed}}
 		}
 		cfg.Ops = append(cfg.Ops, op)
 	}
@@ -941,6 +954,91 @@ func execHistory(t *testing.T, c *Case, cr *CaseResult, ops []HistOp, every bool
 		var other *session
 		if len(sessions) > 1 {
 			other = sessions[1-op.S]
+		}
+		if op.Op == "par" {
+			if len(sessions) < 2 || len(op.Sub) != 2 {
+				cr.Probes["op_not_applicable"]++
+				continue
+			}
+			roOp, edOp := op.Sub[0], op.Sub[1]
+			roS, edS := sessions[op.S], sessions[1-op.S]
+			roBefore := roS.doc.String()
+			var roViews map[string]string
+			if every {
+				roViews, _ = views(roS.doc)
+				views(edS.doc) // warm: the edit meets current caches
+			}
+			sim := GenSim(NewRand(op.Seed))
+			if sim.Mode == "default" {
+				sim.Mode = "random"
+				sim.PreemptProb = 0.3
+			}
+			if sim.PointGap == 0 || sim.PointGap > 40 {
+				sim.PointGap = 1 + int64(op.Seed%40) // preempt inside the operations, at their atomics and sync.Map calls
+			}
+			sim.Today = parseToday(c.Today)
+			var pvRO, pvEd string
+			edApplied := false
+			res, _ := runSim(t, cr, prop, sim, func() {
+				done := make(chan struct{}, 2)
+				simrt.Go("hist:reader", func() {
+					defer func() {
+						if r := recover(); r != nil {
+							pvRO = fmt.Sprint(r)
+						}
+						done <- struct{}{}
+					}()
+					simrt.Yield("hist:reader.start")
+					if strings.HasPrefix(roOp.Op, "read.") {
+						applyEdit(roS, roOp)
+					} else {
+						applyReadOnly(t, cr, prop, roS, nil, roOp, c.Today)
+					}
+				})
+				simrt.Go("hist:editor", func() {
+					defer func() {
+						if r := recover(); r != nil {
+							pvEd = fmt.Sprint(r)
+						}
+						done <- struct{}{}
+					}()
+					simrt.Yield("hist:editor.start")
+					edApplied = applyEdit(edS, edOp)
+				})
+				for i := 0; i < 2; i++ {
+					simrt.Yield("hist:join")
+					<-done
+				}
+			})
+			cr.Runs++
+			if res.Outcome != "completed" || pvRO != "" || pvEd != "" {
+				cr.Masked = "crash"
+				cr.observe("concurrent pair did not complete: " + res.Outcome + " " + clip(pvRO+pvEd, 100))
+				return ""
+			}
+			if !edApplied {
+				cr.Probes["op_not_applicable"]++
+			}
+			cr.Probes["op:par"]++
+			cr.Probes["op:par:"+roOp.Op]++
+			cr.NonTrivial = true
+			if after := roS.doc.String(); after != roBefore {
+				cr.violate(prop+"/purity", "text changed by "+roOp.Op+" while another document was edited", firstDiff(after, roBefore))
+				return ""
+			}
+			if roViews != nil {
+				after, _ := views(roS.doc)
+				if view, d := diffViews(after, roViews); view != "" {
+					cr.violate(prop+"/purity", fmt.Sprintf("view=%s changed by %s while another document was edited", view, roOp.Op), d)
+					return ""
+				}
+			}
+			// the edit counts whatever the other goroutine was doing
+			edOp.Op = edOp.Op + " (while the other session ran " + roOp.Op + ")"
+			if !checkAll(step, edOp, "concurrent") {
+				return ""
+			}
+			continue
 		}
 		if strings.HasPrefix(op.Op, "ro.") {
 			// purity: text and views before == after
